@@ -184,6 +184,13 @@ class Mini:
                     e = e.func
                 name = ast.unparse(e)
             raise Raised(name, st)
+        elif isinstance(st, ast.With):
+            # context managers are entered for their value only (no exception paths modelled)
+            for item in st.items:
+                v = self.expr(item.context_expr, env)
+                if item.optional_vars is not None:
+                    self.assign(item.optional_vars, v, env)
+            self.block(st.body, env)
         elif isinstance(st, ast.Break):
             raise _Break()
         elif isinstance(st, ast.Continue):
